@@ -26,6 +26,25 @@ import os
 
 VERIF = os.path.dirname(os.path.dirname(os.path.abspath(__file__)))
 _INV = None
+_SINGLETONS = (ast.expr_context, ast.operator, ast.cmpop, ast.boolop, ast.unaryop)
+
+
+def _clone(node):
+    """structural copy of an AST.  Not copy.deepcopy: the interpreter shares one object per context / operator kind (ast.Load() ...)
+    between all trees of the process, and the model hangs back links (_parent) on nodes - a deep copy would follow them into whole trees"""
+    if isinstance(node, list):
+        return [_clone(x) for x in node]
+    if not isinstance(node, ast.AST):
+        return node
+    if isinstance(node, _SINGLETONS):
+        return node
+    new = type(node)()
+    for fld, val in ast.iter_fields(node):
+        setattr(new, fld, _clone(val))
+    for a in ("lineno", "col_offset", "end_lineno", "end_col_offset", "_inl"):
+        if hasattr(node, a):
+            setattr(new, a, getattr(node, a))
+    return new
 
 
 def inventory():
@@ -136,7 +155,7 @@ def local_bindings(fn):
     out = {}
 
     def masked(e):
-        e = copy.deepcopy(e)
+        e = _clone(e)
         for y in ast.walk(e):
             if isinstance(y, ast.Name) and y.id in local:
                 y.id = "L"
@@ -394,7 +413,7 @@ def propagate_new_constants(trees, inv):
     class T(ast.NodeTransformer):
         def visit_Name(self, n):
             if isinstance(n.ctx, ast.Load) and n.id in good:
-                return ast.copy_location(copy.deepcopy(good[n.id]), n)
+                return ast.copy_location(_clone(good[n.id]), n)
             return n
     for mod, t in trees.items():
         T().visit(t)
@@ -688,7 +707,7 @@ class _Inliner:
                 if isinstance(st, ast.Assign) and len(st.targets) == 1 and isinstance(st.targets[0], ast.Tuple) and isinstance(ret, ast.Tuple) \
                         and len(ret.elts) == len(st.targets[0].elts) and all(isinstance(t, ast.Name) for t in st.targets[0].elts) \
                         and not ({t.id for t in st.targets[0].elts} & {y.id for y in ast.walk(ret) if isinstance(y, ast.Name)}):
-                    return [ast.copy_location(ast.Assign(targets=[copy.deepcopy(t)], value=v), st) for t, v in zip(st.targets[0].elts, ret.elts)]
+                    return [ast.copy_location(ast.Assign(targets=[_clone(t)], value=v), st) for t, v in zip(st.targets[0].elts, ret.elts)]
                 st2 = copy.copy(st)
                 st2.value = ret
                 return [st2]
@@ -713,21 +732,21 @@ class _Inliner:
             if q not in self.stored and (_pure_path(arg) or isinstance(arg, ast.Constant)) and not (isinstance(arg, ast.Name) and arg.id in self.stored - {q}):
                 sub[q] = arg
             else:
-                pre.append(ast.copy_location(ast.Assign(targets=[ast.Name(id=ren.get(q, q), ctx=ast.Store())], value=copy.deepcopy(arg)), st))
+                pre.append(ast.copy_location(ast.Assign(targets=[ast.Name(id=ren.get(q, q), ctx=ast.Store())], value=_clone(arg)), st))
         recv = self.recv
 
         class R(ast.NodeTransformer):
             def visit_Name(self, n):
                 if n.id in sub and isinstance(n.ctx, ast.Load):
-                    return ast.copy_location(copy.deepcopy(sub[n.id]), n)
+                    return ast.copy_location(_clone(sub[n.id]), n)
                 if recv is not None and n.id == recv and recv_expr is not None:
-                    return ast.copy_location(copy.deepcopy(recv_expr), n)
+                    return ast.copy_location(_clone(recv_expr), n)
                 if n.id in ren:
                     return ast.copy_location(ast.Name(id=ren[n.id], ctx=n.ctx), n)
                 return n
 
         def R_(node):
-            new = R().visit(copy.deepcopy(node))
+            new = R().visit(_clone(node))
             for y in ast.walk(new):
                 if hasattr(y, "lineno"):
                     y.lineno = st.lineno
@@ -982,11 +1001,11 @@ def inline_new_helpers(trees, inv, news):
                         class S(ast.NodeTransformer):
                             def visit_Name(self, m):
                                 if isinstance(m.ctx, ast.Load) and m.id in b:
-                                    return ast.copy_location(copy.deepcopy(b[m.id]), m)
+                                    return ast.copy_location(_clone(b[m.id]), m)
                                 if rcv is not None and m.id == rcv and recv is not None:
-                                    return ast.copy_location(copy.deepcopy(recv), m)
+                                    return ast.copy_location(_clone(recv), m)
                                 return m
-                        new = S().visit(copy.deepcopy(inl.body[0].value))
+                        new = S().visit(_clone(inl.body[0].value))
                         for y in ast.walk(new):
                             if hasattr(y, "lineno"):
                                 y.lineno = n.lineno
@@ -1073,7 +1092,7 @@ def inline_new_aliases(trees, inv):
             if not new:
                 continue
             orig_fn = fn
-            fn = copy.deepcopy(fn)       # the tuple split below is only kept if an alias is written out in the end
+            fn = _clone(fn)       # the tuple split below is only kept if an alias is written out in the end
             # a, b = X, Y  ->  a = X; b = Y   (targets new, distinct, and not read by the right-hand sides)
             for blk_owner in ast.walk(fn):
                 for fld in ("body", "orelse", "finalbody"):
@@ -1218,7 +1237,7 @@ def inline_new_values(trees, inv):
                                 class S(ast.NodeTransformer):
                                     def visit_Name(self, n):
                                         if n.id == nm and isinstance(n.ctx, ast.Load):
-                                            return ast.copy_location(copy.deepcopy(val), n)
+                                            return ast.copy_location(_clone(val), n)
                                         return n
                                 for k in range(len(span)):
                                     after[k] = S().visit(after[k])
@@ -1354,7 +1373,7 @@ def specialise_new_parameters(trees, inv):
             class S(ast.NodeTransformer):
                 def visit_Name(self, n):
                     if isinstance(n.ctx, ast.Load) and n.id in todo:
-                        return ast.copy_location(copy.deepcopy(todo[n.id]), n)
+                        return ast.copy_location(_clone(todo[n.id]), n)
                     return n
             fn.body = [S().visit(x) for x in fn.body]
             fn.body = [_Fold().visit(x) for x in fn.body]
@@ -1445,22 +1464,22 @@ def listcomps_to_loops(trees, inv):
                                     if n.id in ren:
                                         return ast.copy_location(ast.Name(id=ren[n.id], ctx=n.ctx), n)
                                     return n
-                            tgt = R().visit(copy.deepcopy(g.target))
+                            tgt = R().visit(_clone(g.target))
                             for y in ast.walk(tgt):
                                 if isinstance(y, (ast.Name, ast.Tuple, ast.List)):
                                     y.ctx = ast.Store()
                             if isinstance(st.value, ast.ListComp):
-                                elt = R().visit(copy.deepcopy(st.value.elt))
+                                elt = R().visit(_clone(st.value.elt))
                                 app = ast.Expr(value=ast.Call(func=ast.Attribute(value=ast.Name(id=st.targets[0].id, ctx=ast.Load()), attr="append", ctx=ast.Load()),
                                                               args=[elt], keywords=[]))
                                 empty = ast.List(elts=[], ctx=ast.Load())
                             else:
-                                app = ast.Assign(targets=[ast.Subscript(value=ast.Name(id=st.targets[0].id, ctx=ast.Load()), slice=R().visit(copy.deepcopy(st.value.key)),
-                                                                        ctx=ast.Store())], value=R().visit(copy.deepcopy(st.value.value)))
+                                app = ast.Assign(targets=[ast.Subscript(value=ast.Name(id=st.targets[0].id, ctx=ast.Load()), slice=R().visit(_clone(st.value.key)),
+                                                                        ctx=ast.Store())], value=R().visit(_clone(st.value.value)))
                                 empty = ast.Dict(keys=[], values=[])
                             body = [app]
                             for c in reversed(g.ifs):
-                                body = [ast.If(test=R().visit(copy.deepcopy(c)), body=body, orelse=[])]
+                                body = [ast.If(test=R().visit(_clone(c)), body=body, orelse=[])]
                             loop = ast.For(target=tgt, iter=g.iter, body=body, orelse=[])
                             init = ast.Assign(targets=[ast.Name(id=st.targets[0].id, ctx=ast.Store())], value=empty)
                             for nnode in (init, loop):
@@ -1508,7 +1527,7 @@ def next_scans_to_loops(trees, inv):
                             body = hit
                             for c in reversed(g.ifs):
                                 body = [ast.If(test=c, body=body, orelse=[])]
-                            tgt = copy.deepcopy(g.target)
+                            tgt = _clone(g.target)
                             for y in ast.walk(tgt):
                                 if isinstance(y, (ast.Name, ast.Tuple, ast.List)):
                                     y.ctx = ast.Store()
